@@ -20,6 +20,7 @@ mod rsn;
 mod cvt;
 mod c03;
 mod zipx;
+mod pos;
 
 pub use rng::Rng;
 
@@ -51,6 +52,7 @@ fn area(name: &str) -> Box<dyn Area> {
         "c03" => Box::new(c03::C03),
         "c03f" => Box::new(c03::C03f),
         "zip" => Box::new(zipx::Zipx),
+        "pos" => Box::new(pos::Pos),
         _ => {
             eprintln!("unknown area {}", name);
             std::process::exit(2)
